@@ -70,7 +70,9 @@ class Ref:
 
 
 def gen_case(rng):
-    cfg = {"gr": rng.random() < 0.85, "notif": rng.random() < 0.5}
+    # the neighbour's own restart-time is what the speaker announces; the stale routes of a restarting PEER live for the
+    # time the PEER announced, whichever is larger
+    cfg = {"gr": rng.random() < 0.85, "notif": rng.random() < 0.5, "local_rt": rng.choice([120, 120, 5, 2])}
     ref = Ref(cfg)
     ev = []
     st = {"now": 0, "idle_until": 0}
@@ -154,7 +156,7 @@ def sim_line(c):
         elif t == "obs":
             steps.append("(obs)")
     k = c["cfg"]
-    opts = (" gr=120" if k["gr"] else "") + (" grnotif" if k["notif"] and k["gr"] else "")
+    opts = (" gr=%d" % k.get("local_rt", 120) if k["gr"] else "") + (" grnotif" if k["notif"] and k["gr"] else "")
     return "(sim (global 65000 1.1.1.1 sync) (peers (a 10.0.0.1 65001 v6%s) (b 10.0.0.2 65002 v6)) (steps (up b v6) %s))" % (opts, " ".join(steps))
 
 
